@@ -45,9 +45,15 @@ RidNext(r) ==
       [] r.ev = "Load" -> [x \in Alg |-> None]
       [] OTHER -> rid
 
+(* the pipeline's current software revision is GROUND TRUTH: the HEAD of the engine checkout (st.head, read by the harness
+   with its own git call) at the moment the pipeline loaded it last -- at start-up and at every update (RevChange = the
+   checkout is moved, then the real FSM._reload runs).  What the code believes (st.rev = dawgie.context.git_rev, obtained
+   through the real context._rev) is compared as drift only; the clauses are evaluated on the truth. *)
+GitrevNext(r) == IF r.ev = "RevChange" THEN r.st.head ELSE gitrev
+
 Bind(r) ==
     /\ phase' = r.st.phase
-    /\ gitrev' = r.st.rev
+    /\ gitrev' = GitrevNext(r)
     /\ pend' = [x \in Alg |-> ToSet(r.st.todo[x])]
     /\ exec' = ExecOf(r.st)
     /\ rid' = RidNext(r)
@@ -105,13 +111,15 @@ ModelStep(r) ==
       [] r.ev = "Tick" -> Tick \/ (~Active /\ UNCHANGED <<pend, exec, cluster, idle, fly, phase>>)
       [] r.ev = "Notify" -> Notify
       [] r.ev = "Load" -> Load
+      [] r.ev = "RevChange" -> RevChange(r.args.rev)
       [] OTHER -> TRUE
 
 TraceInit ==
     /\ tid \in 1..Len(Traces)
     /\ l = 1
     /\ Init
-    /\ bad = {} /\ drift = FALSE
+    /\ bad = {} /\ drift = (Rec(tid, 1).st.head # gitrev \/ Rec(tid, 1).st.rev # gitrev)
+    /\ (drift => PrintT(<<"DRIFT", Traces[tid].tid, 1, "Init">>))
 
 TraceNext ==
     /\ l < Len(Traces[tid].steps)
@@ -120,7 +128,9 @@ TraceNext ==
     /\ LET r == Rec(tid, l + 1) IN
        /\ Bind(r)
        /\ bad' = StepClauses(Rec(tid, l), r)
-       /\ drift' = (~ModelStep(r) \/ rid' # [x \in Alg |-> r.st.runid[x]])     \* the node attribute is compared as drift only
+       /\ drift' = (\/ ~ModelStep(r)
+                    \/ rid' # [x \in Alg |-> r.st.runid[x]]     \* the node attribute is compared as drift only
+                    \/ r.st.rev # gitrev')                       \* so is the revision attribute the farm compares with
        /\ (bad' # {} => PrintT(<<"CLAUSE", Traces[tid].tid, l + 1, r.ev, bad'>>))
        /\ (drift' => PrintT(<<"DRIFT", Traces[tid].tid, l + 1, r.ev>>))
 
